@@ -475,9 +475,9 @@ func vpGenNoFloat(out []byte, tag byte, depth int, budget *int) []byte {
 	*budget--
 	small := func(w int) {
 		v := vp.Int32()
-		lim := int32(100) // quick: two decimal digits; thorough: five
+		lim := int32(100) // quick: two decimal digits; thorough: three
 		if vp.Tier() == 1 {
-			lim = 100000
+			lim = 1000
 		}
 		vp.Assume(v > -lim && v < lim)
 		if w == 1 {
